@@ -1040,6 +1040,7 @@ pub fn run(ctx: &mut Ctx, replay: Option<&str>) {
     }
     if replay.is_none() {
         wide_issuer_history(ctx);
+        set_patience(0);
     }
     let mut reqs = vec![];
     let mut iruns = vec![];
@@ -1087,6 +1088,7 @@ pub fn run(ctx: &mut Ctx, replay: Option<&str>) {
 /// earlier result — salt, disclosure, digest — appears in a later one, and each result verifies to its own claims. Judged on the
 /// implementation alone (the extracted model is quadratic in the number of disclosures).
 fn wide_issuer_history(ctx: &mut Ctx) {
+    set_patience(240);
     let (per, times) = if ctx.tier == Tier::Quick { (260usize, 8usize) } else { (700, 8) };
     let mut r = ctx.rng.fork(0x3_0000_0000);
     let mut claims = gen_wide_claims(&mut r, per, now());
